@@ -175,6 +175,16 @@ def swallow_then_square(x):
             pass
 
 
+def swallow_in_long_sleep(*_a):
+    """never returns, swallows every Exception around ONE long blocking call; does not touch SIGTERM (so force=True must end it)"""
+    import time
+    while True:
+        try:
+            time.sleep(3600)
+        except Exception:
+            pass
+
+
 def sleep_for(s):
     import time
     time.sleep(s)
